@@ -33,9 +33,13 @@ def static_of(cfg: dict, broken: bool = False) -> str:
     return 'static { ' + ' '.join(routes) + ' }' if routes else ''
 
 
+LABELED = dict(keys=['k1', 'k7'], families='ipv4 unicast; ipv4 nlri-mpls;')       # the second configured route is the labeled key k7
+
+
 class ReloadWorld(systemcheck.SystemWorld):
-    def __init__(self, old: dict, rate_limit: bool, noarib: bool = False) -> None:
-        super().__init__({k: v for k, v in old.items() if v != 'none'}, rate_limit, tail=OTHER_OK, no_adj_rib_out=noarib)
+    def __init__(self, old: dict, rate_limit: bool, noarib: bool = False, labeled: bool = False) -> None:
+        super().__init__({k: v for k, v in old.items() if v != 'none'}, rate_limit, tail=OTHER_OK, no_adj_rib_out=noarib, **(LABELED if labeled else {}))
+        self.second_key = 'k7' if labeled else 'k2'
         r = self.reactor
         r.configuration = self.conf
         r._ips = []
@@ -89,11 +93,11 @@ class ReloadWorld(systemcheck.SystemWorld):
             # the neighbour object of the peer may have been replaced: follow it for the projections
             self.neighbor = self.conf.neighbors.get(self.name, self.neighbor)
             self.namer.neighbor = self.neighbor
-        self.slog('reload', ok=ok, new={k: new.get(k, 'none') for k in systemcheck.KS}, result=result, before=before, cache=self.cache(), pending=bool(self.neighbor.rib.outgoing.pending()), pendingBefore=pending_before, same=same or ok)
+        self.slog('reload', ok=ok, new={k: new.get(k, 'none') for k in self.KS}, result=result, before=before, cache=self.cache(), pending=bool(self.neighbor.rib.outgoing.pending()), pendingBefore=pending_before, same=same or ok)
 
 
 async def direct(w: ReloadWorld, row: dict) -> None:
-    new = {'k1': row['new1'], 'k2': row['new2']}
+    new = {'k1': row['new1'], w.second_key: row['new2']}
     if row['up']:
         if not await w.establish():
             return
@@ -106,7 +110,7 @@ async def direct(w: ReloadWorld, row: dict) -> None:
     w.do_reload(new, row['fault'], row['changed'])
     second = row.get('second', 'none')
     # the second reload: the good new configuration after a failed one, back to the old configuration after a successful one
-    again = new if row['fault'] != 'none' else {'k1': row['old1'], 'k2': row['old2']}
+    again = new if row['fault'] != 'none' else {'k1': row['old1'], w.second_key: row['old2']}
     if second == 'atonce':
         w.do_reload(again, 'none', False)
     await asyncio.sleep(0.3)
@@ -130,12 +134,13 @@ async def direct(w: ReloadWorld, row: dict) -> None:
             await asyncio.sleep(0.6)
         await systemcheck.direct(w, [{'do': 'quiet'}])
     # the API keeps working after the reload, whatever its outcome
-    w.op('Announce', 'k3', 'y')
+    w.op('Announce', 'k3' if 'k3' in w.KS else 'k1', 'y')
     await systemcheck.direct(w, [{'do': 'quiet'}])
 
 
 def run_row(row: dict, tid: int):
-    w = ReloadWorld({'k1': row['old1'], 'k2': row['old2']}, rate_limit=False, noarib=row.get('noarib', False))
+    labeled = row.get('labeled', False)
+    w = ReloadWorld({'k1': row['old1'], ('k7' if labeled else 'k2'): row['old2']}, rate_limit=False, noarib=row.get('noarib', False), labeled=labeled)
 
     async def d(world):
         await direct(world, row)
@@ -175,16 +180,25 @@ def run(tier: str) -> int:
         keep = [r for v in by.values() for r in v[:3]]
         rest = [r for r in rows if r not in keep]
         rows = keep + rest[: max(0, limit - len(keep))]
+    # the same reloads where the second configured route is a labeled one whose values x / y differ in the label only (no API route:
+    # the API key k3 is an IPv6 route, and this session speaks ipv4 unicast and ipv4 nlri-mpls)
+    lab_rows = [dict(r, labeled=True) for r in rows if r['api'] == 'none' and not r['noarib'] and r['old2'] != r['new2'] and 'none' not in (r['old2'], r['new2'])]
+    lab_rows = lab_rows[: 40 if tier == 'quick' else 400]
     lines, meta = [], {}
-    for tid, row in enumerate(rows):
+    lab_lines = []
+    for tid, row in enumerate(rows + lab_rows):
         ln = run_row(row, tid)
-        lines += ln
+        (lab_lines if row.get('labeled') else lines).extend(ln)
         meta[tid] = row
         ck.count(row, nontrivial=(row['old1'], row['old2']) != (row['new1'], row['new2']) or row['fault'] != 'none')
         if tid in (2, len(rows) // 2):
             ck.sample({'row': row, 'log': [{k: v for k, v in e.items() if v not in ('', [], {}) and k not in ('tid',)} for e in ln[:24]]})
     bad, res = systemcheck.judge(lines, 'c17' + tier[0])
     ck.tlc(res, f'Obs_ExaSystem: {len(lines)} lines of {len(rows)} reload scenarios')
+    if lab_lines:
+        bad2, res2 = systemcheck.judge(lab_lines, 'c17l' + tier[0], keys=('k1', 'k7'), fams=('v4u', 'v4l'))
+        ck.tlc(res2, f'Obs_ExaSystem: {len(lab_lines)} lines of {len(lab_rows)} reload scenarios with a labeled route')
+        bad = bad + bad2
     ck.cov['traces_validated_against_impl'] = len(rows)
     for b in bad:
         row = meta[b['tid']]
@@ -198,7 +212,7 @@ def run(tier: str) -> int:
 def replay_file(path: str) -> int:
     c = json.load(open(path))['case']
     lines = run_row(c['row'], 0)
-    bad, _ = systemcheck.judge(lines, 'replay')
+    bad, _ = systemcheck.judge(lines, 'replay', **({'keys': ('k1', 'k7'), 'fams': ('v4u', 'v4l')} if c['row'].get('labeled') else {}))
     for ln in lines:
         print({k: v for k, v in ln.items() if v not in ('', [], {}) and k != 'tid'})
     if any(c['clause'] in b['clauses'] for b in bad):
